@@ -1,3 +1,6 @@
+// replay for property C12, harness c12_reverse_atomic_h6 (/verif/harness/sciparse/c12_path_ops.rs)
+// failed checks reported by CBMC:
+//   attempt to subtract with overflow @ crates/libs/sciparse/src/proto/dataplane_path/standard/view.rs:429:28 in function proto::dataplane_path::standard::view::StandardPathView::try_reverse
 //! verif-attach: file=crates/libs/sciparse/src/proto/dataplane_path/standard/view.rs crate=sciparse mod=verif_c12
 //!
 //! C12 — views and models agree; a failed operation leaves its operand untouched.
@@ -248,3 +251,442 @@ fn c12_reverse_agree_s212() {
 fn c12_reverse_agree_s120() {
     reverse_agree([1, 2, 0])
 }
+
+#[cfg(test)]
+mod verif_playback {
+    use super::*;
+/// Test generated for harness `proto::dataplane_path::standard::view::verif_c12::c12_reverse_atomic_h6` 
+///
+/// Check for `assertion`: "attempt to subtract with overflow"
+
+#[test]
+fn kani_concrete_playback_c12_reverse_atomic_h6_115269361236048875() {
+    let concrete_vals: Vec<Vec<u8>> = vec![
+        // 6ul
+        vec![6, 0, 0, 0, 0, 0, 0, 0],
+        // 69
+        vec![69],
+        // 128
+        vec![128],
+        // 64
+        vec![64],
+        // 2
+        vec![2],
+        // 0
+        vec![0],
+        // 0
+        vec![0],
+        // 193
+        vec![193],
+        // 192
+        vec![192],
+        // 0
+        vec![0],
+        // 64
+        vec![64],
+        // 0
+        vec![0],
+        // 194
+        vec![194],
+        // 1
+        vec![1],
+        // 0
+        vec![0],
+        // 192
+        vec![192],
+        // 208
+        vec![208],
+        // 0
+        vec![0],
+        // 64
+        vec![64],
+        // 0
+        vec![0],
+        // 194
+        vec![194],
+        // 0
+        vec![0],
+        // 0
+        vec![0],
+        // 0
+        vec![0],
+        // 0
+        vec![0],
+        // 0
+        vec![0],
+        // 194
+        vec![194],
+        // 0
+        vec![0],
+        // 64
+        vec![64],
+        // 0
+        vec![0],
+        // 0
+        vec![0],
+        // 0
+        vec![0],
+        // 0
+        vec![0],
+        // 128
+        vec![128],
+        // 128
+        vec![128],
+        // 128
+        vec![128],
+        // 196
+        vec![196],
+        // 0
+        vec![0],
+        // 128
+        vec![128],
+        // 128
+        vec![128],
+        // 196
+        vec![196],
+        // 128
+        vec![128],
+        // 0
+        vec![0],
+        // 128
+        vec![128],
+        // 128
+        vec![128],
+        // 0
+        vec![0],
+        // 64
+        vec![64],
+        // 194
+        vec![194],
+        // 0
+        vec![0],
+        // 0
+        vec![0],
+        // 128
+        vec![128],
+        // 194
+        vec![194],
+        // 0
+        vec![0],
+        // 0
+        vec![0],
+        // 64
+        vec![64],
+        // 0
+        vec![0],
+        // 0
+        vec![0],
+        // 0
+        vec![0],
+        // 64
+        vec![64],
+        // 194
+        vec![194],
+        // 0
+        vec![0],
+        // 0
+        vec![0],
+        // 128
+        vec![128],
+        // 194
+        vec![194],
+        // 0
+        vec![0],
+        // 0
+        vec![0],
+        // 64
+        vec![64],
+        // 0
+        vec![0],
+        // 0
+        vec![0],
+        // 128
+        vec![128],
+        // 128
+        vec![128],
+        // 128
+        vec![128],
+        // 196
+        vec![196],
+        // 0
+        vec![0],
+        // 128
+        vec![128],
+        // 128
+        vec![128],
+        // 196
+        vec![196],
+        // 128
+        vec![128],
+        // 0
+        vec![0],
+        // 128
+        vec![128],
+        // 128
+        vec![128],
+        // 0
+        vec![0],
+        // 0
+        vec![0],
+        // 0
+        vec![0],
+        // 0
+        vec![0],
+        // 0
+        vec![0],
+        // 194
+        vec![194],
+        // 0
+        vec![0],
+        // 64
+        vec![64],
+        // 0
+        vec![0],
+        // 0
+        vec![0],
+        // 0
+        vec![0],
+        // 0
+        vec![0],
+        // 0
+        vec![0],
+        // 0
+        vec![0],
+        // 0
+        vec![0],
+        // 0
+        vec![0],
+        // 0
+        vec![0],
+        // 128
+        vec![128],
+        // 0
+        vec![0],
+        // 196
+        vec![196],
+    ];
+    let mut concrete_vals = concrete_vals;
+    concrete_vals.extend(std::iter::repeat(vec![0u8]).take(8192));
+    kani::concrete_playback_run(concrete_vals, c12_reverse_atomic_h6);
+}
+
+/// Test generated for harness `proto::dataplane_path::standard::view::verif_c12::c12_reverse_atomic_h6` 
+///
+/// Check for `cover`: "reversal of a non-empty path fails"
+
+#[test]
+fn kani_concrete_playback_c12_reverse_atomic_h6_1749130403198398940() {
+    let concrete_vals: Vec<Vec<u8>> = vec![
+        // 5ul
+        vec![5, 0, 0, 0, 0, 0, 0, 0],
+        // 255
+        vec![255],
+        // 252
+        vec![252],
+        // 0
+        vec![0],
+        // 1
+        vec![1],
+        // 255
+        vec![255],
+        // 255
+        vec![255],
+        // 255
+        vec![255],
+        // 255
+        vec![255],
+        // 255
+        vec![255],
+        // 255
+        vec![255],
+        // 255
+        vec![255],
+        // 255
+        vec![255],
+        // 255
+        vec![255],
+        // 255
+        vec![255],
+        // 255
+        vec![255],
+        // 255
+        vec![255],
+        // 255
+        vec![255],
+        // 255
+        vec![255],
+        // 255
+        vec![255],
+        // 255
+        vec![255],
+        // 255
+        vec![255],
+        // 255
+        vec![255],
+        // 255
+        vec![255],
+        // 255
+        vec![255],
+        // 255
+        vec![255],
+        // 255
+        vec![255],
+        // 255
+        vec![255],
+        // 255
+        vec![255],
+        // 255
+        vec![255],
+        // 255
+        vec![255],
+        // 255
+        vec![255],
+        // 255
+        vec![255],
+        // 255
+        vec![255],
+        // 255
+        vec![255],
+        // 255
+        vec![255],
+        // 255
+        vec![255],
+        // 255
+        vec![255],
+        // 255
+        vec![255],
+        // 255
+        vec![255],
+        // 255
+        vec![255],
+        // 255
+        vec![255],
+        // 255
+        vec![255],
+        // 255
+        vec![255],
+        // 255
+        vec![255],
+        // 255
+        vec![255],
+        // 255
+        vec![255],
+        // 255
+        vec![255],
+        // 255
+        vec![255],
+        // 255
+        vec![255],
+        // 255
+        vec![255],
+        // 255
+        vec![255],
+        // 255
+        vec![255],
+        // 255
+        vec![255],
+        // 255
+        vec![255],
+        // 255
+        vec![255],
+        // 255
+        vec![255],
+        // 255
+        vec![255],
+        // 255
+        vec![255],
+        // 255
+        vec![255],
+        // 255
+        vec![255],
+        // 255
+        vec![255],
+        // 255
+        vec![255],
+        // 255
+        vec![255],
+        // 255
+        vec![255],
+        // 255
+        vec![255],
+        // 255
+        vec![255],
+        // 255
+        vec![255],
+        // 255
+        vec![255],
+        // 255
+        vec![255],
+        // 255
+        vec![255],
+        // 255
+        vec![255],
+        // 255
+        vec![255],
+        // 255
+        vec![255],
+        // 255
+        vec![255],
+        // 255
+        vec![255],
+        // 255
+        vec![255],
+        // 255
+        vec![255],
+        // 255
+        vec![255],
+        // 255
+        vec![255],
+        // 255
+        vec![255],
+        // 255
+        vec![255],
+        // 255
+        vec![255],
+        // 255
+        vec![255],
+        // 255
+        vec![255],
+        // 255
+        vec![255],
+        // 255
+        vec![255],
+        // 255
+        vec![255],
+        // 255
+        vec![255],
+        // 255
+        vec![255],
+        // 255
+        vec![255],
+        // 255
+        vec![255],
+        // 255
+        vec![255],
+        // 255
+        vec![255],
+        // 255
+        vec![255],
+        // 255
+        vec![255],
+        // 255
+        vec![255],
+        // 255
+        vec![255],
+        // 255
+        vec![255],
+        // 255
+        vec![255],
+        // 251
+        vec![251],
+    ];
+    let mut concrete_vals = concrete_vals;
+    concrete_vals.extend(std::iter::repeat(vec![0u8]).take(8192));
+    kani::concrete_playback_run(concrete_vals, c12_reverse_atomic_h6);
+}
+}
+
+// native replay (full trace; cargo kani playback, dev profile, real code):
+//   kani_concrete_playback_c12_reverse_atomic_h6_115269361236048875: reproduced (attempt to subtract with overflow)
+//   kani_concrete_playback_c12_reverse_atomic_h6_1749130403198398940: did not reproduce (cover:reversal of a non-empty path fails)
+// re-run: bin/check C12 --replay /verif/replays/C12/c12_reverse_atomic_h6.rs
